@@ -155,6 +155,10 @@ def run(tier: str, seed: int, replay=None) -> int:
     else:
         rules = [{"rounds": 2, "shape": sh, "evaluations": e} for sh, e in
                  (("plain", 1), ("plain", 2), ("inferred_selected", 1), ("inferred_selected", 2), ("refinement", 1), ("alternative", 1))]
+        # an abandoned / a failed evaluation first (the iterator dropped after k results; a condition that raises), then complete ones
+        rules += [{"rounds": 2, "shape": sh, "evaluations": e, "abandon": k} for sh, e, k in
+                  (("refinement", 1, 1), ("refinement", 0, 1), ("alternative", 1, 2), ("inferred_selected", 1, 1), ("plain", 0, 2))]
+        rules += [{"rounds": 2, "shape": sh, "evaluations": e, "fail": True} for sh, e in (("refinement", 1), ("alternative", 0))]
     rule_f = {}
     for f in core.load_findings(PROP):
         w = json.loads((core.VERIF / f.witness).read_text())
@@ -166,7 +170,8 @@ def run(tier: str, seed: int, replay=None) -> int:
         key = json.dumps(p, sort_keys=True)
         rep.count("rules:" + key, True)
         clean = "fatal" not in r and all(row["alive"] == 0 and row["visible"] == 0 and row["nodes"] == 0
-                                         and row["results"] == [3] * p["evaluations"] for row in r["rows"])
+                                         and row["results"] == (["failed"] if p.get("fail") else []) + [3] * p["evaluations"]
+                                         for row in r["rows"])
         if clean:
             if key in rule_f:
                 rep.note(f"finding {rule_f[key][0].fid}: witness no longer fails (appears repaired)")
